@@ -115,9 +115,17 @@ def check_orderings(ords, W_EXPECT=W_EXPECT, R_EXPECT_OK=R_EXPECT_OK):
 
 def tie(rep, tier, rng, model_ok):
     q = tier == "quick"
-    wt, rt, w_ords, r_ords = gen_programs()
+    # when the translator refuses the current source the theorems no longer apply: the exploration of the verbatim
+    # sync_cell.rs under the deterministic scheduler is still run, judged by the oracle alone, as the search for a
+    # concrete torn / backward read; the broken tie is reported afterwards if the search finds nothing
+    tie_problem = None
+    try:
+        wt, rt, w_ords, r_ords = gen_programs()
+    except vlib.BrokenTie as e:
+        tie_problem, wt, rt, w_ords, r_ords = e, None, None, None, None
+        model_ok = False
     found = False
-    if vlib.RUNNER_OK:
+    if vlib.RUNNER_OK and tie_problem is None:
         # on an unbroken proof this can find nothing (c15_wm_not_torn); when the proof obligation
         # "generated = proved program" is broken it is the search for a failing input
         found = wm_search(rep, wt, rt, tier, report_found=True)
@@ -142,7 +150,7 @@ def tie(rep, tier, rng, model_ok):
             bad_oracle.append((c, f[0]))
         if m is not None and m.strip() != f[2].strip():
             bad_model.append((c, f[2], m))
-        e = check_orderings(f[3], w_ords, r_ords)
+        e = check_orderings(f[3], w_ords, r_ords) if tie_problem is None else None
         if e:
             bad_ord.append((c, e))
     nontriv = sum(1 for f in parsed if len(f) > 2 and f[2].replace(";", "").strip())
@@ -156,6 +164,12 @@ def tie(rep, tier, rng, model_ok):
     if bad_oracle:
         c, v = bad_oracle[0]
         rep.violation("seqlock-oracle", {"kind": "property-violated-on-implementation", "case": c, "verdict": v, "failures": len(bad_oracle)})
+        if tie_problem is not None:
+            return
+    if tie_problem is not None:
+        raise tie_problem
+    elif bad_oracle:
+        pass
     elif bad_model or bad_ord:
         what = bad_model[0] if bad_model else bad_ord[0]
         rep.violation("seqlock-correspondence", {"kind": "broken-correspondence", "case": what[0], "detail": repr(what[1:]),
